@@ -316,6 +316,30 @@ func c01Stateful(r *Run, c c01Config) {
 			}
 			atoms = append(atoms, a)
 		}
+		// control: the canonical honest attestation by the first T enabled keys. If even that is
+		// rejected here, rejections in this leg cannot be blamed on attestation checking
+		// (completeness is then left to the pure product above and to C03).
+		var ctl []AttKey
+		for _, i := range c.E {
+			if len(ctl) < int(c.T) {
+				ctl = append(ctl, Keys[i])
+			}
+		}
+		controlOK := false
+		if len(ctl) == int(c.T) {
+			var ca Action
+			if leg == "receive" {
+				ca = MkReceive(UserB.Str, m, Attest(m, ctl), "control")
+			} else {
+				ca = MkReplaceMessage(UserA.Str, m, Attest(m, ctl), []byte("new"), distinct32(0x23), "control")
+			}
+			w.Load(base)
+			controlOK = w.Apply(ca).OK
+			r.Transitions++
+		}
+		if !controlOK && len(ctl) == int(c.T) {
+			r.Truncate("C01 stateful " + leg + " leg: the honest control attestation is rejected in this configuration; completeness not judged through the handler")
+		}
 		lens := []int{int(c.T) - 1, int(c.T), int(c.T) + 1}
 		var seq []c01Atom
 		var rec func(L int)
@@ -339,6 +363,10 @@ func c01Stateful(r *Run, c c01Config) {
 			path := append(append([]Action{}, pre...), a)
 			if o.Panicked {
 				r.Violate("C01 handler panicked on an attestation", a.Desc+": "+o.PanicVal, scn.Replay("actions", path))
+				return
+			}
+			if ExpMismatch(p, o) && p.Exp == MustSucceed && !controlOK {
+				r.Class("stateful-reject")
 				return
 			}
 			if ExpMismatch(p, o) {
